@@ -129,7 +129,9 @@ pub fn tuple_alphabet(input: Input) -> Vec<C4> {
     match input {
         Input::Geo => vec![
             [0.2, 0.95, 10., 2001.],
-            [0.21, 0.96, 20., 2002.5],
+            // (12.30 E, 56.20 N): inside test_subset.datum AND test.datum, while the first tuple is inside
+            // test.datum only — a grid selection that depended on the previous tuple would show
+            [0.2147, 0.9809, 20., 2002.5],
             [0.2, 0.95, 10., f64::NAN],
             [0.2, 2.0, 0., 2001.],
             [f64::NAN, 0.9, 0., 2001.],
